@@ -39,6 +39,85 @@ theorem walkAux_fuel (ty : Nat) : ∀ (n : Nat) (buf : Bytes) (st : WalkSt), buf
 theorem walkAux_eq_walk (ty n : Nat) (buf : Bytes) (st : WalkSt) (h : buf.length ≤ n) :
     walkAux ty n buf st = walk ty buf st := walkAux_fuel ty n buf st h
 
+/-! ### `addNew`: push unless already there -/
+
+theorem addNew_append (qs a b : List Quirk) : addNew qs (a ++ b) = addNew (addNew qs a) b := by
+  induction a generalizing qs with
+  | nil => rfl
+  | cons q r ih => simp only [List.cons_append, addNew]; exact ih _
+
+theorem addNew_mem (qs new : List Quirk) (q : Quirk) : q ∈ addNew qs new ↔ q ∈ qs ∨ q ∈ new := by
+  induction new generalizing qs with
+  | nil => simp [addNew]
+  | cons x r ih =>
+    simp only [addNew]
+    rw [ih]
+    by_cases hx : qs.contains x = true
+    · simp only [hx, if_true, List.mem_cons]
+      have : x ∈ qs := by simpa using hx
+      constructor
+      · rintro (h | h)
+        · exact Or.inl h
+        · exact Or.inr (Or.inr h)
+      · rintro (h | h | h)
+        · exact Or.inl h
+        · subst h; exact Or.inl this
+        · exact Or.inr h
+    · simp only [hx, Bool.false_eq_true, if_false, List.mem_append, List.mem_cons, List.not_mem_nil, or_false]
+      constructor
+      · rintro ((h | h) | h)
+        · exact Or.inl h
+        · exact Or.inr (Or.inl h)
+        · exact Or.inr (Or.inr h)
+      · rintro (h | h | h)
+        · exact Or.inl (Or.inl h)
+        · exact Or.inl (Or.inr h)
+        · exact Or.inr h
+
+/-- what is pushed extends the list, by candidates only, and never creates a duplicate -/
+theorem addNew_ext (qs new : List Quirk) :
+    ∃ ext, addNew qs new = qs ++ ext ∧ (∀ q ∈ ext, q ∈ new) ∧ (qs.Nodup → (qs ++ ext).Nodup) := by
+  induction new generalizing qs with
+  | nil => exact ⟨[], by simp [addNew], by simp, by simp⟩
+  | cons x r ih =>
+    simp only [addNew]
+    by_cases hx : qs.contains x = true
+    · simp only [hx, if_true]
+      obtain ⟨ext, h1, h2, h3⟩ := ih qs
+      exact ⟨ext, h1, fun q hq => List.mem_cons_of_mem _ (h2 q hq), h3⟩
+    · simp only [hx, Bool.false_eq_true, if_false]
+      obtain ⟨ext, h1, h2, h3⟩ := ih (qs ++ [x])
+      refine ⟨x :: ext, by rw [h1]; simp, ?_, ?_⟩
+      · intro q hq
+        simp only [List.mem_cons] at hq ⊢
+        rcases hq with h | h
+        · exact Or.inl h
+        · exact Or.inr (h2 q h)
+      · intro hnd
+        have hxn : x ∉ qs := by simpa using hx
+        have : (qs ++ [x]).Nodup := by
+          rw [List.nodup_append]
+          exact ⟨hnd, by simp, by intro a ha b hb hab; simp at hb; subst hb; subst hab; exact hxn ha⟩
+        have := h3 this
+        simpa using this
+
+/-- nothing to guard against: fresh, duplicate-free candidates are simply appended -/
+theorem addNew_eq_append (qs new : List Quirk) (hn : new.Nodup) (hd : ∀ q ∈ new, q ∉ qs) :
+    addNew qs new = qs ++ new := by
+  induction new generalizing qs with
+  | nil => simp [addNew]
+  | cons x r ih =>
+    have hx : ¬ qs.contains x = true := by simpa using hd x (by simp)
+    rw [List.nodup_cons] at hn
+    simp only [addNew, hx, Bool.false_eq_true, if_false]
+    rw [ih (qs ++ [x]) hn.2]
+    · simp
+    · intro q hq hmem
+      simp only [List.mem_append, List.mem_singleton] at hmem
+      rcases hmem with h | h
+      · exact hd q (by simp [hq]) h
+      · subst h; exact hn.1 hq
+
 /-! ### what one grammar item does to the walk state -/
 
 def itemKind : Item → Nat | .nop => 1 | .opt k _ => k
@@ -165,30 +244,30 @@ theorem itemStep_eq (ty : Nat) (i : Item) (st : WalkSt) (h : i.WF) :
       { st with olayout := st.olayout ++ [i.tok],
                 mss := orKeep i.mssVal st.mss,
                 wscale := orKeep i.wsVal st.wscale,
-                quirks := st.quirks ++ itemQuirks ty i,
+                quirks := addNew st.quirks (itemQuirks ty i),
                 tsCalls := st.tsCalls ++ (match i.tsVal with | some v => [v.1] | none => []) } := by
   cases i with
-  | nop => simp [itemStep, itemKind, itemData, walkStep, Item.tok, Item.mssVal, Item.wsVal, Item.tsVal, itemQuirks, orKeep]
+  | nop => simp [itemStep, itemKind, itemData, walkStep, stepQuirks, addNew, Item.tok, Item.mssVal, Item.wsVal, Item.tsVal, itemQuirks, orKeep]
   | opt k d =>
     obtain ⟨hk, hf⟩ := h
     match k, hk, d, hf with
     | 2, _, [x, y], _ =>
-      simp [itemStep, itemKind, itemData, walkStep, Item.tok, Item.mssVal, Item.wsVal, Item.tsVal, itemQuirks, orKeep, be16]
+      simp [itemStep, itemKind, itemData, walkStep, stepQuirks, addNew, Item.tok, Item.mssVal, Item.wsVal, Item.tsVal, itemQuirks, orKeep, be16]
     | 3, _, [x], _ =>
-      simp [itemStep, itemKind, itemData, walkStep, Item.tok, Item.mssVal, Item.wsVal, Item.tsVal, itemQuirks, orKeep,
+      simp [itemStep, itemKind, itemData, walkStep, stepQuirks, addNew, Item.tok, Item.mssVal, Item.wsVal, Item.tsVal, itemQuirks, orKeep,
         TcpConst.maxWscale]
     | 4, _, [], _ =>
-      simp [itemStep, itemKind, itemData, walkStep, Item.tok, Item.mssVal, Item.wsVal, Item.tsVal, itemQuirks, orKeep]
+      simp [itemStep, itemKind, itemData, walkStep, stepQuirks, addNew, Item.tok, Item.mssVal, Item.wsVal, Item.tsVal, itemQuirks, orKeep]
     | 5, _, d, _ =>
-      simp [itemStep, itemKind, itemData, walkStep, Item.tok, Item.mssVal, Item.wsVal, Item.tsVal, itemQuirks, orKeep]
+      simp [itemStep, itemKind, itemData, walkStep, stepQuirks, addNew, Item.tok, Item.mssVal, Item.wsVal, Item.tsVal, itemQuirks, orKeep]
     | 6, _, d, _ =>
-      simp [itemStep, itemKind, itemData, walkStep, Item.tok, Item.mssVal, Item.wsVal, Item.tsVal, itemQuirks, orKeep]
+      simp [itemStep, itemKind, itemData, walkStep, stepQuirks, addNew, Item.tok, Item.mssVal, Item.wsVal, Item.tsVal, itemQuirks, orKeep]
     | 7, _, d, _ =>
-      simp [itemStep, itemKind, itemData, walkStep, Item.tok, Item.mssVal, Item.wsVal, Item.tsVal, itemQuirks, orKeep]
+      simp [itemStep, itemKind, itemData, walkStep, stepQuirks, addNew, Item.tok, Item.mssVal, Item.wsVal, Item.tsVal, itemQuirks, orKeep]
     | 8, _, [a, b, c, d, e, f, g, h], _ =>
-      simp [itemStep, itemKind, itemData, walkStep, Item.tok, Item.mssVal, Item.wsVal, Item.tsVal, itemQuirks, orKeep, be32]
+      simp [itemStep, itemKind, itemData, walkStep, stepQuirks, addNew, Item.tok, Item.mssVal, Item.wsVal, Item.tsVal, itemQuirks, orKeep, be32]
     | k + 9, _, d, _ =>
-      simp [itemStep, itemKind, itemData, walkStep, Item.tok, Item.mssVal, Item.wsVal, Item.tsVal, itemQuirks, orKeep]
+      simp [itemStep, itemKind, itemData, walkStep, stepQuirks, addNew, Item.tok, Item.mssVal, Item.wsVal, Item.tsVal, itemQuirks, orKeep]
 
 def consOpt {α : Type} (v : Option α) (rest : List α) : List α :=
   match v with | some x => x :: rest | none => rest
@@ -214,11 +293,11 @@ theorem foldItems_eq (ty : Nat) : ∀ (items : List Item) (st : WalkSt), (∀ i 
       { st with olayout := st.olayout ++ items.map Item.tok,
                 mss := orKeep (items.filterMap Item.mssVal).getLast? st.mss,
                 wscale := orKeep (items.filterMap Item.wsVal).getLast? st.wscale,
-                quirks := st.quirks ++ items.flatMap (itemQuirks ty),
+                quirks := addNew st.quirks (items.flatMap (itemQuirks ty)),
                 tsCalls := st.tsCalls ++ items.flatMap (fun i => match i.tsVal with | some v => [v.1] | none => []) } := by
   intro items
   induction items with
-  | nil => intro st _; simp [foldItems, orKeep]
+  | nil => intro st _; simp [foldItems, orKeep, addNew]
   | cons i is ih =>
     intro st h
     have hi : i.WF := h i (by simp)
@@ -226,7 +305,7 @@ theorem foldItems_eq (ty : Nat) : ∀ (items : List Item) (st : WalkSt), (∀ i 
     have : foldItems ty (i :: is) st = foldItems ty is (itemStep ty i st) := rfl
     rw [this, ih _ his, itemStep_eq ty i st hi]
     simp only [List.map_cons, List.flatMap_cons, List.append_assoc, List.cons_append, List.nil_append,
-      filterMap_cons_consOpt, orKeep_getLast_cons]
+      filterMap_cons_consOpt, orKeep_getLast_cons, addNew_append]
 
 /-- every item the decoder produces is well formed -/
 theorem parseItems_wf : ∀ (n : Nat) (b : Bytes) (items : List Item) (pad : Option Bytes),
@@ -430,18 +509,16 @@ theorem malformedKind_isSome : ∀ (n : Nat) (b : Bytes),
 
 /-! ### the quirks the walk appends -/
 
-theorem walkStep_quirks (ty k : Nat) (d rest : Bytes) (st : WalkSt) :
-    (walkStep ty k d rest st).quirks = st.quirks ++ (walkStep ty k d rest {}).quirks ∧
-    ∀ q ∈ (walkStep ty k d rest {}).quirks, q ∈ optionQuirks := by
-  match k with
-  | 0 => simp only [walkStep, List.nil_append, optionQuirks]; split <;> simp
-  | 1 | 2 | 4 | 5 | 6 | 7 => simp [walkStep]
-  | 3 => cases d <;> simp [walkStep, optionQuirks]
-  | 8 =>
-    simp only [walkStep, List.nil_append, optionQuirks, List.append_assoc]
-    refine ⟨trivial, ?_⟩
-    intro q hq
-    simp only [List.mem_append] at hq
+theorem stepQuirks_sub (ty k : Nat) (d rest : Bytes) : ∀ q ∈ stepQuirks ty k d rest, q ∈ optionQuirks := by
+  intro q hq
+  unfold stepQuirks at hq
+  simp only [optionQuirks]
+  split at hq
+  · split at hq <;> simp_all
+  · split at hq
+    · split at hq <;> simp_all
+    · simp at hq
+  · simp only [List.mem_append] at hq
     rcases hq with hq | hq
     · split at hq
       · split at hq <;> simp_all
@@ -449,36 +526,56 @@ theorem walkStep_quirks (ty k : Nat) (d rest : Bytes) (st : WalkSt) :
     · split at hq
       · split at hq <;> simp_all
       · simp at hq
-  | k + 9 => simp [walkStep]
+  · simp at hq
 
+/-- one iteration either leaves the quirk list alone or pushes its candidates through the guard -/
+theorem walkStep_quirks (ty k : Nat) (d rest : Bytes) (st : WalkSt) :
+    (walkStep ty k d rest st).quirks = st.quirks ∨
+    (walkStep ty k d rest st).quirks = addNew st.quirks (stepQuirks ty k d rest) := by
+  match k with
+  | 0 => exact Or.inr rfl
+  | 1 | 2 | 4 | 5 | 6 | 7 => exact Or.inl rfl
+  | 3 => cases d with
+    | nil => exact Or.inl rfl
+    | cons x t => exact Or.inr rfl
+  | 8 => exact Or.inr rfl
+  | k + 9 => exact Or.inl rfl
+
+/-- the walk only appends to the quirk list it is given; what it appends are option-derived quirks;
+and it never lists a quirk twice (each push is guarded) -/
 theorem walkAux_quirks (ty : Nat) : ∀ (n : Nat) (buf : Bytes) (st : WalkSt),
-    (walkAux ty n buf st).quirks = st.quirks ++ (walkAux ty n buf {}).quirks ∧
-    ∀ q ∈ (walkAux ty n buf {}).quirks, q ∈ optionQuirks := by
+    ∃ ext, (walkAux ty n buf st).quirks = st.quirks ++ ext ∧ (∀ q ∈ ext, q ∈ optionQuirks) ∧
+      (st.quirks.Nodup → (st.quirks ++ ext).Nodup) := by
   intro n
   induction n with
-  | zero => intro buf st; simp [walkAux]
+  | zero => intro buf st; exact ⟨[], by simp [walkAux], by simp, by simp⟩
   | succ n ih =>
     intro buf st
     match buf with
-    | [] => simp [walkAux]
+    | [] => exact ⟨[], by simp [walkAux], by simp, by simp⟩
     | k :: tl =>
       simp only [walkAux]
-      obtain ⟨h1, h2⟩ := walkStep_quirks ty k (optPayload (k :: tl))
-        ((k :: tl).drop (min (optSize (k :: tl)) (k :: tl).length)) st
-      obtain ⟨i1, i2⟩ := ih ((k :: tl).drop (min (optSize (k :: tl)) (k :: tl).length))
+      obtain ⟨e2, i1, i2, i3⟩ := ih ((k :: tl).drop (min (optSize (k :: tl)) (k :: tl).length))
         (walkStep ty k (optPayload (k :: tl)) ((k :: tl).drop (min (optSize (k :: tl)) (k :: tl).length)) st)
-      obtain ⟨j1, _⟩ := ih ((k :: tl).drop (min (optSize (k :: tl)) (k :: tl).length))
-        (walkStep ty k (optPayload (k :: tl)) ((k :: tl).drop (min (optSize (k :: tl)) (k :: tl).length)) {})
-      refine ⟨by rw [i1, h1, j1, List.append_assoc], ?_⟩
-      intro q hq
-      rw [j1, List.mem_append] at hq
-      rcases hq with hq | hq
-      · exact h2 q hq
-      · exact i2 q hq
+      rcases walkStep_quirks ty k (optPayload (k :: tl))
+        ((k :: tl).drop (min (optSize (k :: tl)) (k :: tl).length)) st with h | h
+      · rw [h] at i1 i3
+        exact ⟨e2, i1, i2, i3⟩
+      · obtain ⟨e1, a1, a2, a3⟩ := addNew_ext st.quirks (stepQuirks ty k (optPayload (k :: tl))
+          ((k :: tl).drop (min (optSize (k :: tl)) (k :: tl).length)))
+        rw [h, a1] at i1 i3
+        refine ⟨e1 ++ e2, by rw [i1, List.append_assoc], ?_, ?_⟩
+        · intro q hq
+          rw [List.mem_append] at hq
+          rcases hq with hq | hq
+          · exact stepQuirks_sub _ _ _ _ q (a2 q hq)
+          · exact i2 q hq
+        · intro hnd
+          rw [← List.append_assoc]
+          exact i3 (a3 hnd)
 
-/-- the walk only appends to the quirk list it is given, and what it appends are option-derived quirks -/
 theorem walk_quirks (ty : Nat) (buf : Bytes) (st : WalkSt) :
-    (walk ty buf st).quirks = st.quirks ++ (walk ty buf {}).quirks ∧
-    ∀ q ∈ (walk ty buf {}).quirks, q ∈ optionQuirks := walkAux_quirks ty buf.length buf st
+    ∃ ext, (walk ty buf st).quirks = st.quirks ++ ext ∧ (∀ q ∈ ext, q ∈ optionQuirks) ∧
+      (st.quirks.Nodup → (st.quirks ++ ext).Nodup) := walkAux_quirks ty buf.length buf st
 
 end Huginn.Lemmas.TcpWalk
